@@ -18,6 +18,11 @@ a list of sizes is `_` or comma separated decimals.
        real AES-GCM on the Go side, an ideal AEAD (opens iff key and nonce are the sealing ones) here
        -> r=<same|other|err|panic>
 
+  shared <raw|tagged> <mem|disk> <hostonly> <secret> <salts> <mutate> <whole|stream> <whole|stream>
+       several filespaces side by side, all built from the SAME secret buffer and from salts that are sub-slices
+       of one array (spare capacity everywhere), each writing its own file; `mutate`: the caller scribbles over
+       its buffers afterwards      -> m=<row>,<row>,…   row i, column j ∈ {s,o,e,p}: filespace i reading file j
+
 Everything after ` | ` on a result line is model-only information (branch taken) and is stripped by the check
 before the comparison.
 -/
@@ -172,6 +177,33 @@ def doXkey (f : Array String) : Option String := do
   | .err k => pure s!"r=err | w:{kindName k}"
   | .panic => pure "r=panic"
 
+/-- `shared`: filespaces built side by side from the same secret and a list of salts, each writes its own file;
+row i = what filespace i answers for file j (s = same data, o = other data, e = error, p = panic).  In the
+model key material is a value, so neither the order of construction nor what the caller does to its buffers
+afterwards (field 6) can matter. -/
+def doShared (f : Array String) : Option String := do
+  let k ← parseKind f[1]!
+  let h ← parseBool f[3]!
+  let sec ← Hex.decode f[4]!
+  let salts ← parseBytesList f[5]!
+  let wp ← parsePath f[7]!
+  let rp ← parsePath f[8]!
+  let c := mkCipher idealAEAD id k
+  let kms := salts.map fun salt => keyMaterial hostIDActual ⟨sec, salt, h⟩
+  let ent : Bytes := List.replicate 12 0
+  let pts : List Bytes := (List.range kms.length).map fun j => [UInt8.ofNat j, 100]
+  let stored ← (List.zip kms pts).mapM fun (km, pt) =>
+    match c.writeVia wp km ent [pt] with
+    | .ok st => some st
+    | _ => none
+  let rows := kms.map fun km =>
+    String.ofList ((List.zip stored pts).map fun (st, pt) =>
+      match (c.readVia rp km st false []).res with
+      | .ok cs => if content cs = pt then 's' else 'o'
+      | .err _ => 'e'
+      | .panic => 'p')
+  pure s!"m={",".intercalate rows}"
+
 /-- a base that only records the call it receives -/
 def logBase : BaseOps Unit (List String) Unit where
   ns := fun _ op log =>
@@ -226,6 +258,7 @@ def stepLine (line : String) : String :=
     | some "fs" => if f.size = 15 then doFs f else none
     | some "aes" => if f.size = 8 then doAes f else none
     | some "xkey" => if f.size = 12 then doXkey f else none
+    | some "shared" => if f.size = 9 then doShared f else none
     | some "ns" => if f.size ≥ 3 then doNs f else none
     | _ => none
   r.getD "bad-op"
